@@ -158,6 +158,23 @@ def cfgs : List Cfg :=
 def trace (c : Cfg) : List Event := (Sys.run ({ cfg := c, rebooted := 0 } : Sys) hist).2
 def finalDb (c : Cfg) : Chan := (Sys.run ({ cfg := c, rebooted := 0 } : Sys) hist).1.db
 
+/-- a non-trivial instance of `CfgSim` (the hypothesis of `C18_config_independent_step`): a live
+    nameplate and a bound connection; the two sides differ in listing, usage, blur, the usage
+    database and the start time -/
+def exDb : Chan :=
+  { nameplates := [⟨1, "app", "4", "mb1"⟩], npSides := [⟨1, true, "s1", 11⟩],
+    mailboxes := [⟨"app", "mb1", 11, true⟩], mbSides := [⟨"mb1", true, "s1", 11, none⟩], nextNp := 2 }
+
+def exConns : List Conn := [{ id := 1, app := some "app", side := some "s1", didClaim := true, nameplateId := some "4" }]
+
+example : CfgSim
+    { cfg := { allowList := true, usage := true, blur := some 60 }, db := exDb, disk := exDb,
+      udb := { clients := [⟨"app", "s1", 0, none, none⟩] }, udisk := { clients := [⟨"app", "s1", 0, none, none⟩] },
+      conns := exConns, rebooted := 5 }
+    { cfg := { allowList := false }, db := exDb, disk := exDb, conns := exConns, rebooted := 9 } :=
+  ⟨⟨rfl, rfl, rfl⟩, rfl, ⟨rfl, rfl⟩, ⟨rfl, rfl⟩,
+    ⟨⟨by decide, by decide⟩, by unfold Chan.NpIdsUnique; decide, by unfold Chan.NpHasSide; decide⟩⟩
+
 /-- the hypotheses of `C18_config_independent` hold for the example -/
 example : (∀ c ∈ cfgs, c.welcome = "{}") ∧ ∀ op ∈ hist, op.isCrash = false := by decide
 
